@@ -1,11 +1,14 @@
 (* Driver for the extracted DenseMatrix model (property C19).
    Reads observation lines produced by `lmh-dense run` on stdin:
-     <id> T=<ty> size=<bytes> C=<cols> ops=<op;op;...> => <per-op obs>;...;END|<final obs>
-   and prints one verdict line per case:
+     <id> T=<ty> size=<bytes> C=<cols> align=<a> pat=<bits> ops=<op;op;...>
+          => <per-op obs>;...;END&<fin0>&<fin1>&<fin2>
+   (format documented in harness/src/bin/dense.rs) and prints one verdict line per case:
      <id> OK | <id> PROPFAIL <why> | <id> DIFF <why>
-   PROPFAIL: the implementation's observation contradicts the table-level
-   specification (the property itself); DIFF: it only differs from the
-   storage-level model. *)
+   PROPFAIL is decided by the extracted checker [check_C19] (proved sound and complete
+   for the specification relation trace_ok: C19_check_sound / C19_check_complete); the
+   text after PROPFAIL is only a diagnosis computed here.  DIFF: the observation is
+   accepted by the property but differs from the struct-level model (DenseReg:
+   data vector + rows field + capacity bound, junk in the padding). *)
 open Dense_model
 
 let rec nat_of_int n = if n <= 0 then O else S (nat_of_int (n - 1))
@@ -18,40 +21,144 @@ let rec int_of_pos = function XH -> 1 | XO p -> 2 * int_of_pos p | XI p -> 2 * i
 let int_of_z = function Z0 -> 0 | Zpos p -> int_of_pos p | Zneg p -> - (int_of_pos p)
 
 let split c s = if s = "" then [] else String.split_on_char c s
+let nat s = nat_of_int (int_of_string s)
+let zed s = z_of_int (int_of_string s)
 
-let parse_rows s : z list list =
-  (* rows separated by '/', cells by ','; "-" denotes an empty row *)
-  List.map (fun r -> if r = "-" then [] else List.map (fun x -> z_of_int (int_of_string x)) (split ',' r))
-    (split '/' s)
+let parse_row r = if r = "-" then [] else List.map zed (split ',' r)
+let parse_rows s : z list list = List.map parse_row (split '/' s)
+let parse_opt_rows s : z list option list =
+  List.map (fun r -> if r = "~" then None else Some (parse_row r)) (split '/' s)
 
 let parse_op s : z op =
   match String.split_on_char ':' s with
-  | ["new"; r] -> ONew (nat_of_int (int_of_string r))
-  | ["cap"; r; c] -> OWithCap (nat_of_int (int_of_string r), nat_of_int (int_of_string c))
-  | ["resize"; r] -> OResize (nat_of_int (int_of_string r))
-  | ["fill"; v] -> OFill (z_of_int (int_of_string v))
-  | ["set"; r; c; v] -> OSet (nat_of_int (int_of_string r), nat_of_int (int_of_string c), z_of_int (int_of_string v))
-  | ["setmc"; r; c; v] -> OSetMc (nat_of_int (int_of_string r), nat_of_int (int_of_string c), z_of_int (int_of_string v))
+  | ["new"; r] -> ONew (nat r)
+  | ["cap"; r; c] -> OWithCap (nat r, nat c)
+  | ["resize"; r] -> OResize (nat r)
+  | ["fill"; v] -> OFill (zed v)
+  | ["set"; r; c; v] -> OSet (nat r, nat c, zed v)
+  | ["setmc"; r; c; v] -> OSetMc (nat r, nat c, zed v)
   | ["from"; rows] -> OFromRows (parse_rows rows)
   | ["from"] -> OFromRows []
   | ["clone"] -> OClone
-  | ["imc"; c; v] -> OIterMutCol (nat_of_int (int_of_string c), z_of_int (int_of_string v))
+  | ["imc"; c; v] -> OIterMutCol (nat c, zed v)
   | _ -> failwith ("bad op " ^ s)
 
+let parse_local d s : z rop =
+  match String.split_on_char ':' s with
+  | ["fromx"; n; rows] -> RFromRowsLen (d, nat n, parse_rows rows)
+  | ["fromx"; n] -> RFromRowsLen (d, nat n, [])
+  | ["reserve"; n] -> RReserve (d, nat n)
+  | _ -> RLocal (d, parse_op s)
+
+let parse_rop s : z rop =
+  let pref =
+    if String.length s > 1 && s.[0] = 'r' then
+      (match String.index_opt s '.' with
+       | Some i -> (match int_of_string_opt (String.sub s 1 (i - 1)) with
+                    | Some d -> Some (d, String.sub s (i + 1) (String.length s - i - 1))
+                    | None -> None)
+       | None -> None)
+    else None in
+  match pref with
+  | Some (d, o) -> parse_local (nat_of_int d) o
+  | None ->
+    (match String.split_on_char ':' s with
+     | ["cf"; d; x] -> RCloneFrom (nat d, nat x)
+     | ["ct"; d; x] -> RCloneTo (nat d, nat x)
+     | ["swap"; a; b] -> RSwap (nat a, nat b)
+     | ["mv"; d; x] -> RMove (nat d, nat x)
+     | _ -> parse_local O s)
+
 let show_table (t : z list list) =
-  if t = [] then "" else
   String.concat "/" (List.map (fun r -> if r = [] then "-" else String.concat "," (List.map (fun x -> string_of_int (int_of_z x)) r)) t)
 
 let kv tok = match String.index_opt tok '=' with
   | Some i -> (String.sub tok 0 i, String.sub tok (i + 1) (String.length tok - i - 1))
   | None -> (tok, "")
 
-(* junk written in the padding by the storage-level model: differs per step and cell *)
+(* junk written in the padding / uninitialized rows by the struct-level model: differs per step and cell *)
 let pads k i = z_of_int (1000003 + 7919 * int_of_nat k + int_of_nat i)
 
-let prefixes l =
-  let rec go acc pre = function [] -> List.rev acc | x :: r -> let pre' = pre @ [x] in go (pre' :: acc) pre' r in
-  go [] [] l
+let nreg = 3
+let default_pat = "1011011011011011"
+
+exception Bad of string
+
+(* one matrix: rows|stride|aligned|ravelok|capacity|contents|uniform -> (mobs, (capacity, uniform value of ravel())) *)
+let parse_mobs s =
+  match String.split_on_char '|' s with
+  | [rows; strd; al; rav; cap; contents; uni] ->
+      ({ ob_rows = nat rows; ob_stride = nat strd; ob_aligned = (al = "1"); ob_ravel = (rav = "1");
+         ob_cells = parse_rows contents },
+       (int_of_string cap,
+        if String.length uni > 1 && uni.[0] = 'U' then Some (int_of_string (String.sub uni 1 (String.length uni - 1))) else None))
+  | _ -> raise (Bad ("bad-matrix-observation " ^ s))
+
+let parse_bits s = List.init (String.length s - 1) (fun i -> s.[i + 1] = '1')
+
+let parse_robs s =
+  let parts = String.split_on_char '&' s in
+  if List.length parts <> nreg + 2 then raise (Bad ("bad-observation " ^ s));
+  let ms = List.map parse_mobs (List.filteri (fun i _ -> i < nreg) parts) in
+  let e = List.nth parts nreg and n = List.nth parts (nreg + 1) in
+  if String.length e < 1 || e.[0] <> 'E' || String.length n < 1 || n.[0] <> 'N' then raise (Bad ("bad-observation " ^ s));
+  ({ ob_regs = List.map fst ms; ob_eq = parse_bits e; ob_ne = parse_bits n }, List.map snd ms)
+
+let parse_fobs s =
+  match String.split_on_char '|' s with
+  | [it; rv; into; intomut; mixed; mixedmut; mixedinto; lens; eqc; eqp; eqm] ->
+      { f_iter = parse_rows it; f_rev = parse_rows rv; f_into = parse_rows into; f_into_mut = parse_rows intomut;
+        f_mixed = parse_opt_rows mixed; f_mixed_mut = parse_opt_rows mixedmut; f_mixed_into = parse_opt_rows mixedinto;
+        f_lens = List.map nat (split ',' lens);
+        f_eqclone = (eqc = "1"); f_eqpad = (eqp = "1"); f_eqmod = (eqm = "1") }
+  | _ -> raise (Bad ("bad-final-observation " ^ s))
+
+let starts_with p s = String.length s >= String.length p && String.sub s 0 (String.length p) = p
+
+(* diagnosis of a rejected per-op observation (text only) *)
+let why_robs s (regs : z list list list) (o : z robs) =
+  let si = int_of_nat s in
+  let buf = ref "" in
+  let set x = if !buf = "" then buf := x in
+  if List.length o.ob_regs <> List.length regs then set "register-count";
+  List.iteri (fun k (t, m) ->
+      if not (z_check_mobs s t m) then begin
+        if int_of_nat m.ob_rows <> List.length t then
+          set (Printf.sprintf "r%d rows %d expected %d" k (int_of_nat m.ob_rows) (List.length t))
+        else if m.ob_cells <> t then set (Printf.sprintf "r%d contents" k)
+        else if int_of_nat m.ob_stride <> si then
+          set (Printf.sprintf "r%d stride %d expected %d" k (int_of_nat m.ob_stride) si)
+        else if not m.ob_aligned then set (Printf.sprintf "r%d row-not-aligned" k)
+        else set (Printf.sprintf "r%d ravel-layout" k)
+      end)
+    (try List.combine regs o.ob_regs with _ -> []);
+  let pairs = List.concat_map (fun a -> List.map (fun b -> (a, b)) regs) regs in
+  (try
+     List.iteri (fun i ((a, b), e) ->
+         if e <> (a = b) then set (Printf.sprintf "eq r%d==r%d is %b but logical cells %s" (i / nreg) (i mod nreg) e
+                                     (if a = b then "equal" else "differ")))
+       (List.combine pairs o.ob_eq);
+     List.iteri (fun i ((a, b), e) ->
+         if e <> (a <> b) then set (Printf.sprintf "ne r%d!=r%d is %b but logical cells %s" (i / nreg) (i mod nreg) e
+                                      (if a = b then "equal" else "differ")))
+       (List.combine pairs o.ob_ne)
+   with _ -> set "eq-matrix-size");
+  if !buf = "" then "observation" else !buf
+
+let why_fobs cn pat (t : z list list) (f : z fobs) =
+  let exp = z_take_mixed_o pat t in
+  if f.f_iter <> t then "iter-order"
+  else if f.f_rev <> List.rev t then "rev-iter-order"
+  else if f.f_into <> t then "into-iter-order"
+  else if f.f_into_mut <> t then "into-iter-mut-order"
+  else if f.f_mixed <> exp then "double-ended-iter"
+  else if f.f_mixed_mut <> exp then "double-ended-iter-mut"
+  else if f.f_mixed_into <> exp then "double-ended-into-iter"
+  else if f.f_lens <> mixed_lens pat (nat_of_int (List.length t)) then "iterator-len"
+  else if not f.f_eqclone then "clone-not-equal"
+  else if not f.f_eqpad then "eq-depends-on-padding-or-capacity"
+  else if f.f_eqmod <> (t = [] || int_of_nat cn = 0) then "eq-ignores-logical-cell"
+  else "final-observation"
 
 let () =
   try
@@ -65,91 +172,114 @@ let () =
         let id = List.hd toks in
         let fields = List.map kv (List.tl toks) in
         let get k = List.assoc k fields in
-        let size = int_of_string (get "size") in
-        let c = int_of_string (get "C") in
-        let align = int_of_string (get "align") in
-        let ops = List.map parse_op (split ';' (get "ops")) in
-        let cn = nat_of_int c in
-        let s = stride (nat_of_int size) cn (nat_of_int align) in
-        let si = int_of_nat s in
-        let obs_items = split ';' obs in
         let verdict = ref "OK" in
         let set_v v = if !verdict = "OK" then verdict := v in
-        (* expected observation after each prefix of the op list *)
-        let rec walk pres obs_items idx =
-          match pres, obs_items with
-          | [], [fin] ->
-              (* final observation: END|iter|rev|eqclone|eqpad|eqmod *)
-              (match String.split_on_char '|' fin with
-               | ["END"; it; rv; eqc; eqp; eqm; mixed; mixed_mut; into; itok] ->
-                   let tfin = (match z_t_run cn [] ops with Ok t -> t | _ -> []) in
-                   let sfin = (match z_s_run cn s pads O [] ops with Ok st -> st | _ -> []) in
-                   if it <> show_table tfin then set_v "PROPFAIL iter-order";
-                   if rv <> show_table (List.rev tfin) then set_v "PROPFAIL rev-iter-order";
-                   let pat = List.init (List.length tfin) (fun i -> i mod 3 <> 1) in
-                   let exp_mixed = show_table (z_take_mixed pat tfin) in
-                   if mixed <> exp_mixed then set_v "PROPFAIL double-ended-iter";
-                   if mixed_mut <> exp_mixed then set_v "PROPFAIL double-ended-iter-mut";
-                   if into <> show_table tfin then set_v "PROPFAIL into-iter-order";
-                   if itok <> "1" then set_v "PROPFAIL iterator-len-or-fuse";
-                   if eqc <> "1" then set_v "PROPFAIL clone-not-equal";
-                   if eqp <> "1" then set_v "PROPFAIL eq-depends-on-padding";
-                   let has_cell = (tfin <> [] && c > 0) in
-                   if eqm <> (if has_cell then "0" else "1") then set_v "PROPFAIL eq-ignores-logical-cell";
-                   (* storage-level self checks of the model (tie to DenseProofs) *)
-                   if not (z_s_eqb (z_s_clone cn s (pads (nat_of_int 77)) sfin) sfin) then set_v "DIFF model-clone-eq"
-               | _ -> set_v ("DIFF bad-final-observation " ^ fin))
-          | [], [] -> set_v "DIFF missing-final-observation"
-          | [], _ -> set_v "DIFF too-many-observations"
-          | pre :: rest, o :: orest ->
-              let tr = z_t_run cn [] pre in
-              let sr = z_s_run cn s pads O [] pre in
-              (match tr, sr, o with
-               | Panic _, Panic _, "P" -> if rest <> [] && orest <> [] then set_v "DIFF ops-after-panic" else ()
-               | Panic _, _, _ -> set_v (Printf.sprintf "PROPFAIL op%d expected-panic got %s" idx o)
-               | Ok _, _, "P" -> set_v (Printf.sprintf "PROPFAIL op%d unexpected-panic" idx)
-               | Ok t, Ok st, _ ->
-                   (match String.split_on_char '|' o with
-                    | [rows; strd; al; rav; contents] ->
-                        if int_of_string rows <> List.length t then set_v (Printf.sprintf "PROPFAIL op%d rows %s expected %d" idx rows (List.length t))
-                        else if contents <> show_table t then set_v (Printf.sprintf "PROPFAIL op%d contents" idx)
-                        else if int_of_string strd <> si then set_v (Printf.sprintf "PROPFAIL op%d stride %s expected %d" idx strd si)
-                        else if al <> "1" then set_v (Printf.sprintf "PROPFAIL op%d row-not-aligned" idx)
-                        else if rav <> "1" then set_v (Printf.sprintf "PROPFAIL op%d ravel-layout" idx)
-                        else if show_table (z_abs st) <> contents then set_v (Printf.sprintf "DIFF op%d storage-model" idx)
-                        else if List.length (z_ravel st) <> List.length t * si then set_v (Printf.sprintf "DIFF op%d ravel-length-model" idx)
-                        else ();
-                        walk rest orest (idx + 1)
-                    | _ -> set_v (Printf.sprintf "DIFF op%d bad-observation %s" idx o))
-               | _, _, _ -> set_v (Printf.sprintf "DIFF op%d model-levels-disagree" idx))
-          | _ :: _, [] -> set_v "DIFF missing-observations"
-        in
-        (* a panic ends the case: the harness emits no END record then *)
-        let pres = prefixes ops in
-        let panicked = List.exists (fun x -> x = "P") obs_items in
-        if panicked then begin
-          let n = List.length obs_items in
-          let pres' = List.filteri (fun i _ -> i < n) pres in
-          (* walk expects a final record; emulate by checking prefix only *)
-          let rec walkp pres obs idx = match pres, obs with
-            | [], [] -> ()
-            | pre :: rest, o :: orest ->
-                let tr = z_t_run cn [] pre in
-                (match tr, o with
-                 | Panic _, "P" -> if orest <> [] then set_v "DIFF ops-after-panic"
-                 | Panic _, _ -> set_v (Printf.sprintf "PROPFAIL op%d expected-panic" idx)
-                 | Ok _, "P" -> set_v (Printf.sprintf "PROPFAIL op%d unexpected-panic" idx)
-                 | Ok t, _ ->
-                     (match String.split_on_char '|' o with
-                      | [rows; _; _; _; contents] ->
-                          if int_of_string rows <> List.length t || contents <> show_table t
-                          then set_v (Printf.sprintf "PROPFAIL op%d contents" idx);
-                          walkp rest orest (idx + 1)
-                      | _ -> set_v "DIFF bad-observation")
-                 | _, _ -> set_v "DIFF model")
-            | _, _ -> set_v "DIFF observation-count" in
-          walkp pres' obs_items 0
-        end else walk pres obs_items 0;
+        (try
+          let size = int_of_string (get "size") in
+          let c = int_of_string (get "C") in
+          let align = int_of_string (get "align") in
+          let pat_s = (try get "pat" with Not_found -> default_pat) in
+          let pat = List.init (String.length pat_s) (fun i -> pat_s.[i] = '1') in
+          let ops = List.map parse_rop (split ';' (get "ops")) in
+          let opnames = Array.of_list (split ';' (get "ops")) in
+          let opname i = if i < Array.length opnames then opnames.(i) else "?" in
+          let cn = nat_of_int c in
+          let s = stride (nat_of_int size) cn (nat_of_int align) in
+          let items = split ';' obs in
+          (* observer panics are violations by themselves (an observer of a matrix the
+             operation returned normally must not panic) *)
+          List.iteri (fun i it -> if it = "OBSPANIC" then
+                         set_v (Printf.sprintf "PROPFAIL op%d %s observer-panicked-after-the-operation" i (opname i))) items;
+          if !verdict = "OK" then begin
+            let fin_items = List.filter (starts_with "END&") items in
+            let op_items = List.filter (fun x -> not (starts_with "END&" x)) items in
+            let fin = match fin_items with
+              | [f] -> Some (List.map parse_fobs (String.split_on_char '&' (String.sub f 4 (String.length f - 4))))
+              | [] -> None
+              | _ -> raise (Bad "several-final-observations") in
+            let parsed = List.map (fun x -> if x = "P" then (ObsPanic, []) else
+                                      let (r, caps) = parse_robs x in (ObsOk r, caps)) op_items in
+            let ob = List.map fst parsed in
+            let regs0 : z list list list = List.init nreg (fun _ -> []) in
+            (* ---- the property: extracted, proved checker ---- *)
+            if not (z_check_C19 cn s pat regs0 ops ob fin) then begin
+              (* diagnosis *)
+              let i = int_of_nat (z_first_bad cn s regs0 ops ob O) in
+              let rec advance regs ops k = if k = 0 then (regs, ops) else
+                  match ops with
+                  | o :: rest -> (match z_rt_step cn regs o with Ok r -> advance r rest (k - 1) | _ -> (regs, ops))
+                  | [] -> (regs, []) in
+              let (regs, rest) = advance regs0 ops i in
+              let obs_i = (try Some (List.nth ob i) with _ -> None) in
+              let why =
+                match rest, obs_i with
+                | [], None ->
+                    (match fin with
+                     | None -> "missing-final-observation"
+                     | Some fl ->
+                         if List.length fl <> List.length regs then "final-register-count" else
+                         let bad = List.filter (fun (_, (t, f)) -> not (z_check_fobs cn pat t f))
+                             (List.mapi (fun k x -> (k, x)) (List.combine regs fl)) in
+                         (match bad with
+                          | (k, (t, f)) :: _ -> Printf.sprintf "final r%d %s" k (why_fobs cn pat t f)
+                          | [] -> "final-observation"))
+                | [], Some _ -> "too-many-observations"
+                | o :: _, None ->
+                    (match z_rt_step cn regs o with
+                     | Panic _ -> Printf.sprintf "op%d %s expected-panic got-nothing" i (opname i)
+                     | _ -> Printf.sprintf "op%d %s missing-observation" i (opname i))
+                | o :: _, Some x ->
+                    (match z_rt_step cn regs o, x with
+                     | Panic _, ObsPanic ->
+                         if fin <> None then Printf.sprintf "op%d %s final-observation-after-panic" i (opname i)
+                         else Printf.sprintf "op%d %s observations-after-panic" i (opname i)
+                     | Panic _, ObsOk _ -> Printf.sprintf "op%d %s expected-panic got-result" i (opname i)
+                     | Ok _, ObsPanic -> Printf.sprintf "op%d %s unexpected-panic" i (opname i)
+                     | Ok regs', ObsOk r -> Printf.sprintf "op%d %s %s" i (opname i) (why_robs s regs' r)
+                     | _, _ -> Printf.sprintf "op%d %s model-error" i (opname i)) in
+              set_v ("PROPFAIL " ^ why)
+            end else begin
+              (* ---- the tie: struct-level model (data vector, rows field, capacity bound) ---- *)
+              let sregs0 = List.init nreg (fun _ -> z_new0 cn s (pads O)) in
+              let rec walk sregs ops parsed k idx =
+                match ops, parsed with
+                | [], [] -> ()
+                | o :: orest, (ObsOk r, caps) :: prest ->
+                    (match z_rs_step cn s (pads k) sregs o with
+                     | Ok sregs' ->
+                         let mo = z_m_observe s sregs' in
+                         if List.map (fun m -> m.ob_cells) mo.ob_regs <> List.map (fun m -> m.ob_cells) r.ob_regs
+                         then set_v (Printf.sprintf "DIFF op%d struct-model-contents" idx)
+                         else if List.map (fun m -> m.ob_rows) mo.ob_regs <> List.map (fun m -> m.ob_rows) r.ob_regs
+                         then set_v (Printf.sprintf "DIFF op%d struct-model-rows-field" idx)
+                         else if mo.ob_eq <> r.ob_eq || mo.ob_ne <> r.ob_ne
+                         then set_v (Printf.sprintf "DIFF op%d struct-model-eq" idx)
+                         else if List.exists (fun m -> not m.ob_ravel) mo.ob_regs
+                         then set_v (Printf.sprintf "DIFF op%d struct-model-ravel" idx)
+                         else if List.exists2 (fun m (cap, _) -> cap < int_of_nat m.scap) sregs' caps
+                         then set_v (Printf.sprintf "DIFF op%d capacity-below-model-bound" idx)
+                         else if (match o with
+                                  | RLocal (d, OFill v) ->
+                                      (* C19_fill: fill() writes every storage cell, padding included *)
+                                      let m = List.nth sregs' (int_of_nat d) in
+                                      List.exists (fun x -> x <> v) (z_ravel m.sd)
+                                      || (m.sd <> [] && int_of_nat s > 0 && snd (List.nth caps (int_of_nat d)) <> Some (int_of_z v))
+                                  | _ -> false)
+                         then set_v (Printf.sprintf "DIFF op%d fill-left-storage-cells-unwritten" idx)
+                         else walk sregs' orest prest (S k) (idx + 1)
+                     | _ -> set_v (Printf.sprintf "DIFF op%d struct-model-panics" idx))
+                | o :: _, (ObsPanic, _) :: _ ->
+                    (match z_rs_step cn s (pads k) sregs o with
+                     | Panic _ -> ()
+                     | _ -> set_v (Printf.sprintf "DIFF op%d struct-model-does-not-panic" idx))
+                | _, _ -> set_v "DIFF observation-count" in
+              walk sregs0 ops parsed O 0
+            end
+          end
+        with
+        | Bad m -> set_v ("DIFF " ^ m)
+        | Not_found -> set_v "DIFF missing-field"
+        | Failure m -> set_v ("DIFF parse-error " ^ (String.map (fun ch -> if ch = ' ' then '_' else ch) m)));
         print_endline (id ^ " " ^ !verdict)
       end
     done
